@@ -565,9 +565,16 @@ class Driver:
     def op_g_is_empty(self):
         return self.gcall('is_empty', [Ref(self.graph)])
 
-    def op_g_remove(self, k):
+    def op_g_remove(self, k, keep_slot=None):
         r = self.gcall('remove', [Ref(self.graph), Ref(Cell(self.val(k)))])
-        return None if r.variant == 0 else self.node_obs(r.f[0])
+        if r.variant == 0:
+            return None
+        if keep_slot is None:
+            return self.node_obs(r.f[0])
+        # the caller keeps the node remove() hands out: it becomes the harness's handle number keep_slot again
+        self.nodes[keep_slot].v = r.f[0]
+        c = self.nodes[keep_slot]
+        return {'alias': self.alias_of(c.v), 'key': self.key_of(Ref(c)), 'value': self.value_of(Ref(c))}
 
     def _node_vec(self, v):
         out = [self.alias_of(n) for n in v.f]
